@@ -12,6 +12,7 @@ pub mod c07;
 pub mod c08;
 pub mod c09;
 pub mod c10;
+pub mod ser;
 pub mod c15;
 pub mod td_common;
 pub mod c16;
@@ -28,6 +29,7 @@ macro_rules! dispatch {
             "C08" => c08::$f($ctx $(, $arg)*),
             "C09" => c09::$f($ctx $(, $arg)*),
             "C10" => c10::$f($ctx $(, $arg)*),
+            "C11" | "C12" => ser::$f($ctx $(, $arg)*),
             "C15" => c15::$f($ctx $(, $arg)*),
             "C16" => c16::$f($ctx $(, $arg)*),
             other => {
